@@ -32,7 +32,9 @@ Del(f, x)    == [y \in DOMAIN f \ {x} |-> f[y]]
 VLen(v) == IF Len(v) > 0 /\ v[1] = -1 THEN v[2] ELSE Len(v)        \* long values are logged as <<-1, length, hash words>>
 SumSeq(s) == FoldLeft(LAMBDA a, b : a + b, 0, s)
 
-EmptyFs == [shared |-> <<>>, h |-> <<>>]
+\* filesets: sh = shared state by setfile path, h = handles, now = the harness-owned monotonic clock (whole seconds),
+\* sf = setfile path -> [ver (mtime), names (absolute paths in file order)]
+EmptyFs == [sh |-> <<>>, h |-> <<>>, now |-> 0, sf |-> <<>>]
 
 Init == /\ disk = <<>> /\ wr = <<>> /\ rd = <<>> /\ us = <<>> /\ mg = <<>> /\ so = <<>>
         /\ fs = EmptyFs /\ it = <<>> /\ pl = <<>> /\ judge = {}
@@ -143,18 +145,19 @@ MergedOf(parts, merge, dupsort) ==
     IN IF merge THEN [t |-> MergeFold(tabs), ord |-> TRUE]
        ELSE [t |-> AllSorted(tabs), ord |-> dupsort]
 
-\* files a fileset handle presents: names loaded at the last reload that pass the handle's filters
-FsView(h) == LET sh == fs.shared IN
-             SelectSeq(sh.loaded, LAMBDA e : fs.h[h].fnaccept[e.name] /\ fs.h[h].rdaccept[e.name])
+\* files a fileset handle presents: files loaded at the last reload that pass the handle's filename and reader filters
+FnAccept(h, e) == h.fnfilter = <<>> \/ \E j \in 1..Len(h.fnfilter) : h.fnfilter[j] = e.bc
+RdAccept(h, e) == h.rdfilter = 0 \/ (h.rdfilter = 1 /\ Len(e.t) % 2 = 0) \/ (h.rdfilter = 2 /\ Len(e.t) % 2 = 1)
+FsView(f) == LET h == fs.h[f] IN SelectSeq(fs.sh[h.set].view, LAMBDA e : FnAccept(h, e) /\ RdAccept(h, e))
 
+FsContent(f, v) == MergedOf([i \in 1..Len(v) |-> [t |-> v[i].t, ord |-> TRUE]], fs.h[f].merge, fs.h[f].dupsort)
 RECURSIVE Content(_)
 Content(src) ==
     CASE src.t = "r" -> [t |-> rd[src.n].t, ord |-> TRUE]
       [] src.t = "u" -> [t |-> us[src.n].t, ord |-> Strict(us[src.n].t)]
       [] src.t = "m" -> LET m == mg[src.n] IN
                         MergedOf([i \in 1..Len(m.srcs) |-> Content(m.srcs[i])], m.merge, m.dupsort)
-      [] src.t = "f" -> LET h == fs.h[src.n] v == FsView(src.n) IN
-                        MergedOf([i \in 1..Len(v) |-> [t |-> v[i].t, ord |-> TRUE]], h.merge, h.dupsort)
+      [] src.t = "f" -> FsContent(src.n, FsView(src.n))
 
 \* does producing entry e of a merged table involve a failing merge call?
 FailTokOf(src) == IF src.t = "m" THEN mg[src.n].failtok ELSE IF src.t = "s" THEN so[src.n].failtok ELSE -1
@@ -208,7 +211,7 @@ NextMiss(i) ==
             \/ /\ NextOk(it[i].c) /\ EntryFails(it[i].c.t[it[i].c.pos], it[i].ft)      \* the merge function reported failure
                /\ it' = [it EXCEPT ![i].broken = TRUE]
     /\ UNCHANGED <<disk, wr, rd, us, mg, so, fs, pl, judge>>
-Close(i) == i \in DOMAIN it /\ it' = Del(it, i) /\ UNCHANGED <<disk, wr, rd, us, mg, so, fs, pl, judge>>
+Close(i) == i \in DOMAIN it /\ it[i].src.t # "f" /\ it' = Del(it, i) /\ UNCHANGED <<disk, wr, rd, us, mg, so, fs, pl, judge>>
 
 \* mtbl_source_write(src, w): every entry of the source is offered to the writer in order; stops at the first refusal
 \* (heavy values are passed as operator arguments: TLC re-evaluates LET definitions inside actions on every use)
@@ -258,4 +261,73 @@ SWrite(s, w, ok, spills) ==
     /\ UNCHANGED <<disk, rd, us, mg, fs, it, pl, judge>>
 SDestroy(s) == s \in DOMAIN so /\ so' = Del(so, s) /\ UNCHANGED <<disk, wr, rd, us, mg, fs, it, pl, judge>>
 
+\* ------------------------------------------------------------------ fileset (C07)
+(* sh[set] = [view (sequence of [name, t]: the files loaded at the most recent reload), ver (setfile version that reload
+   looked at, 0 = never reloaded), last (time of that reload), forced (a reload_now is owed), nopen (open iterators)] *)
+NEVERIV == NEVER
+ClockSet(t) == fs' = [fs EXCEPT !.now = t] /\ UNCHANGED <<disk, wr, rd, us, mg, so, it, pl, judge>>
+SetFileWrite(path, ver, names, bcs) == /\ fs' = [fs EXCEPT !.sf = Upd(@, path, [ver |-> ver, names |-> names, bcs |-> bcs])]
+                                  /\ disk' = Upd(disk, path, [kind |-> "other"])
+                                  /\ UNCHANGED <<wr, rd, us, mg, so, it, pl, judge>>
+HOpts(set, interval, merge, dupsort, fnfilter, rdfilter) ==
+    [set |-> set, interval |-> interval, merge |-> merge, dupsort |-> dupsort, fnfilter |-> fnfilter, rdfilter |-> rdfilter]
+FsInit(f, path, o) ==
+    /\ path \in DOMAIN fs.sf
+    /\ fs' = [fs EXCEPT !.h = Upd(@, f, o),
+                        !.sh = IF path \in DOMAIN @ THEN @ ELSE Upd(@, path, [view |-> <<>>, ver |-> 0, last |-> 0, forced |-> FALSE, nopen |-> 0, nh |-> 0])]
+    /\ UNCHANGED <<disk, wr, rd, us, mg, so, it, pl, judge>>
+FsDup(f, orig, o) == /\ orig \in DOMAIN fs.h
+                     /\ fs' = [fs EXCEPT !.h = Upd(@, f, o)]
+                     /\ UNCHANGED <<disk, wr, rd, us, mg, so, it, pl, judge>>
+FsDestroy(f) == f \in DOMAIN fs.h /\ fs' = [fs EXCEPT !.h = Del(@, f)] /\ UNCHANGED <<disk, wr, rd, us, mg, so, it, pl, judge>>
+\* result of scanning the setfile now: names whose file exists and that were already loaded (kept as they are) or that
+\* open as a table; missing files and files that are not tables are skipped
+Rescan(set) == LET sf == fs.sf[set] old == fs.sh[set].view
+                   keep(n) == SelectSeq(old, LAMBDA e : e.name = n)
+                   ent(n, bc) == IF n \notin DOMAIN disk THEN <<>>
+                                 ELSE IF Len(keep(n)) > 0 THEN <<keep(n)[1]>>
+                                 ELSE IF disk[n].kind = "table" THEN <<[name |-> n, t |-> disk[n].t, bc |-> bc]>> ELSE <<>>
+               IN FlattenSeq([j \in 1..Len(sf.names) |-> ent(sf.names[j], sf.bcs[j])])
+Reloaded(set) == [fs.sh[set] EXCEPT !.view = IF fs.sf[set].ver # fs.sh[set].ver THEN Rescan(set) ELSE @,
+                                   !.ver = fs.sf[set].ver, !.last = fs.now, !.forced = FALSE]
+\* a reload is owed to the next source operation through handle f once no iterator is open
+Owed(f) == LET h == fs.h[f] sh == fs.sh[h.set] IN
+           sh.nopen = 0 /\ (sh.ver = 0 \/ sh.forced \/ (h.interval # NEVERIV /\ fs.now - sh.last > h.interval))
+RescanIn(set, x) == LET sf == x.sf[set] old == x.sh[set].view
+                       keep(n) == SelectSeq(old, LAMBDA e : e.name = n)
+                       ent(n, bc) == IF n \notin DOMAIN disk THEN <<>>
+                                     ELSE IF Len(keep(n)) > 0 THEN <<keep(n)[1]>>
+                                     ELSE IF disk[n].kind = "table" THEN <<[name |-> n, t |-> disk[n].t, bc |-> bc]>> ELSE <<>>
+                   IN FlattenSeq([j \in 1..Len(sf.names) |-> ent(sf.names[j], sf.bcs[j])])
+ReloadedIn(set, x) == [x.sh[set] EXCEPT !.view = IF x.sf[set].ver # x.sh[set].ver THEN RescanIn(set, x) ELSE @,
+                                        !.ver = x.sf[set].ver, !.last = x.now, !.forced = FALSE]
+OwedIn(f, x) == LET h == x.h[f] sh == x.sh[h.set] IN
+                sh.nopen = 0 /\ (sh.ver = 0 \/ sh.forced \/ (h.interval # NEVERIV /\ x.now - sh.last > h.interval))
+\* the two outcomes a non-source operation may have on the shared state: nothing, or the owed reload
+MaybeReload(f, fs1) == LET set == fs1.h[f].set IN {fs1} \cup (IF Owed(f) THEN {[fs1 EXCEPT !.sh[set] = Reloaded(set)]} ELSE {})
+FsReload(f) == /\ f \in DOMAIN fs.h /\ fs' \in MaybeReload(f, fs)
+               /\ UNCHANGED <<disk, wr, rd, us, mg, so, it, pl, judge>>
+FsReloadNow(f) == /\ f \in DOMAIN fs.h
+                  /\ LET set == fs.h[f].set IN
+                     IF fs.sh[set].nopen = 0
+                     THEN fs' \in {[fs EXCEPT !.sh[set] = Reloaded(set)], [fs EXCEPT !.sh[set].forced = TRUE]}
+                     ELSE fs' = [fs EXCEPT !.sh[set].forced = TRUE]          \* never while an iterator is open
+                  /\ UNCHANGED <<disk, wr, rd, us, mg, so, it, pl, judge>>
+\* a source operation through handle f: the owed reload has happened; then the iterator pins its snapshot
+FsOpen(i, f, b, null) ==
+    /\ f \in DOMAIN fs.h
+    /\ LET set == fs.h[f].set
+           fs1 == IF Owed(f) THEN [fs EXCEPT !.sh[set] = Reloaded(set)] ELSE fs
+           h == fs1.h[f]
+           v == SelectSeq(fs1.sh[set].view, LAMBDA e : FnAccept(h, e) /\ RdAccept(h, e))
+       IN /\ fs' = [fs1 EXCEPT !.sh[set].nopen = @ + 1]
+          /\ OpenOn(i, [t |-> "f", n |-> f], b, null, MergedOf([j \in 1..Len(v) |-> [t |-> v[j].t, ord |-> TRUE]], h.merge, h.dupsort))
+    /\ UNCHANGED <<disk, wr, rd, us, mg, so, pl, judge>>
+FsClose(i) ==
+    /\ i \in DOMAIN it /\ it[i].src.t = "f"
+    /\ LET f == it[i].src.n set == fs.h[f].set
+           fs1 == [fs EXCEPT !.sh[set].nopen = @ - 1]
+       IN fs' \in (IF fs1.sh[set].nopen = 0 THEN LET x == fs1 IN {x} \cup (IF OwedIn(f, x) THEN {[x EXCEPT !.sh[set] = ReloadedIn(set, x)]} ELSE {}) ELSE {fs1})
+    /\ it' = Del(it, i)
+    /\ UNCHANGED <<disk, wr, rd, us, mg, so, pl, judge>>
 ====
